@@ -331,6 +331,9 @@ func (e *Exec) caseAlts(g *G, i int, c selCase) []alt {
 	if c.key == 0 { // nil channel: never ready
 		return nil
 	}
+	if isExternal(c.key) {
+		return []alt{{g: g, caseIdx: i}}
+	}
 	ci := e.chanInfoOf(c.key)
 	capN := c.ch.Cap()
 	if c.send {
@@ -626,6 +629,10 @@ func Send[T any](ch chan<- T, v T) {
 	if o.completed {
 		return // handed to a parked receiver
 	}
+	if isExternal(o.cases[0].key) {
+		ch <- v
+		return
+	}
 	e.mu.Lock()
 	closed := e.chanInfoOf(o.cases[0].key).closed
 	e.mu.Unlock()
@@ -693,6 +700,12 @@ func Close[T any](ch chan<- T) {
 	close(ch)
 }
 
+// SendTo(ch)(v) is `ch <- v` with v converted to the element type by assignment.
+func SendTo[T any](ch chan<- T) func(T) { return func(v T) { Send(ch, v) } }
+
+// CaseSendTo(ch)(v) is CaseSend with v converted to the element type by assignment.
+func CaseSendTo[T any](ch chan<- T) func(T) Case { return func(v T) Case { return CaseSend(ch, v) } }
+
 // Case is one case of a select.
 type Case struct{ c selCase }
 
@@ -735,7 +748,9 @@ func Select(hasDefault bool, cases ...Case) *Sel {
 	s := &Sel{Index: o.chosen, o: o, e: e}
 	if o.chosen >= 0 {
 		c := o.cases[o.chosen]
-		if c.send && !o.completed && c.pred == nil {
+		if c.send && !o.completed && c.pred == nil && isExternal(c.key) {
+			c.ch.Send(c.val)
+		} else if c.send && !o.completed && c.pred == nil {
 			e.mu.Lock()
 			closed := e.chanInfoOf(c.key).closed
 			e.mu.Unlock()
